@@ -266,6 +266,27 @@ LOG_CFGS = {"plain": {}, "bytes": {"rotate_bytes": 50_000_000}, "midnight": {"ro
             "bytes+backups": {"rotate_bytes": 50_000_000, "rotate_backups": 5}}
 
 
+def _offer(offers: list[dict], via: str) -> list[dict]:
+    """Offer the lines to the real Packet constructors (which log them to PKT_LOGGER as configured right now)."""
+    written = []
+    for o in offers:
+        line = f"{o['rssi']} {o['frame']}" + (f" * {o['err']}" if o["err"] else "") + (f" # {o['comment']}" if o["comment"] else "")
+        dtm_s = o["dtm"].isoformat(timespec="microseconds")
+        try:
+            if via == "port":
+                Packet.from_port(o["dtm"], line)
+            elif via == "ctor":  # a packet that exists by construction, whatever its annotations' text
+                Packet(o["dtm"], f"{o['rssi']} {o['frame']}", err_msg=o["err"], comment=o["comment"])
+            else:
+                Packet.from_file(dtm_s, line)
+            acc = 1
+        except (exc.PacketInvalid, ValueError, AssertionError):
+            acc = 0
+        written.append({"dtm": dtm_s, "t": t3(o["dtm"]), "rssi": o["rssi"], "frame": o["frame"], "err": o["err"],
+                        "comment": _asc(o["comment"]), "acc": acc})
+    return written
+
+
 def log_session(offers: list[dict], via: str = "port", logcfg: str = "plain") -> dict:
     """offers: [{dtm (datetime), rssi, frame, err, comment}] -> item for PktLogTrace.
     logcfg: how the packet log is configured (the three handler classes of set_pkt_logging; no rollover happens)."""
@@ -274,22 +295,7 @@ def log_session(offers: list[dict], via: str = "port", logcfg: str = "plain") ->
     try:
         t_start = dt.now() - td(seconds=1)
         set_pkt_logging(_packet.PKT_LOGGER, file_name=p1, **LOG_CFGS[logcfg])
-        written = []
-        for o in offers:
-            line = f"{o['rssi']} {o['frame']}" + (f" * {o['err']}" if o["err"] else "") + (f" # {o['comment']}" if o["comment"] else "")
-            dtm_s = o["dtm"].isoformat(timespec="microseconds")
-            try:
-                if via == "port":
-                    Packet.from_port(o["dtm"], line)
-                elif via == "ctor":  # a packet that exists by construction, whatever its annotations' text
-                    Packet(o["dtm"], f"{o['rssi']} {o['frame']}", err_msg=o["err"], comment=o["comment"])
-                else:
-                    Packet.from_file(dtm_s, line)
-                acc = 1
-            except (exc.PacketInvalid, ValueError, AssertionError):
-                acc = 0
-            written.append({"dtm": dtm_s, "t": t3(o["dtm"]), "rssi": o["rssi"], "frame": o["frame"], "err": o["err"],
-                            "comment": _asc(o["comment"]), "acc": acc})
+        written = _offer(offers, via)
         _detach()
         lines = _read_lines(p1)
         loop = asyncio.new_event_loop()
@@ -433,3 +439,144 @@ def synthetic_sessions(tier: str, seed: int) -> list[dict]:
             offers.append({"dtm": t, "rssi": rssi, "frame": fr, "err": err, "comment": comment})
         items.append(offers)
     return items
+
+
+# ----------------------------------------------------------------------------------------------
+# histories: the packet log configured several times in ONE process (a second Gateway object, a reload with
+# another file, ...) with nothing but the library's own set_pkt_logging() in between - spec/PktLog.tla RunHist
+
+
+HIST_FILES = ("A", "B", "")                        # log file names of a history; "" = no file (packet logging off)
+HIST_STAMPS = [dt(2024, 2, 29, 23, 59, 59, 999990), dt(2023, 12, 31, 23, 59, 58, 0), dt(2021, 6, 15, 12, 0, 0, 123456),
+               dt(2038, 1, 19, 3, 14, 7, 500000)]
+
+
+def history_plans(tier: str, seed: int) -> list[dict]:
+    """All file-name sequences of 2..N sessions over HIST_FILES (first one A or none: B-first is the same up to
+    renaming; at least one file) x handler configurations from LOG_CFGS x cc_console per session x what is heard
+    (0-3 lines per session, cycling through the MC_PktLog alphabet).  Without console every pattern runs with 8
+    (thorough, <= 3 sessions: all) assignments of handler configurations; every cc_console assignment with at least
+    one console session runs with the rotating assignment (thorough: and all-plain).
+
+    plan = {"name", "sessions": [{"file", "logcfg", "console", "offers"}]}"""
+    import itertools
+
+    kinds = [(fr, an) for fr in (FR_S1, FR_S2, FR_S3, FR_BAD) for an in ANNOTS]
+    rnd = random.Random(seed + 2)
+    cfgs = list(LOG_CFGS)
+    nmax = 4 if tier == "thorough" else 3
+    plans: list[dict] = []
+    kctr = 0
+    for n in range(2, nmax + 1):
+        for files in itertools.product(HIST_FILES, repeat=n):
+            if files[0] == "B" or not any(files):
+                continue
+            rotation = [cfgs[j % len(cfgs)] for j in range(n)]
+            if tier == "thorough" and n <= 3:       # every assignment of handler configurations
+                cfg_rows = [list(c) for c in itertools.product(cfgs, repeat=n)]
+            else:                                    # the same one throughout, and the four rotations
+                cfg_rows = [[c] * n for c in cfgs] + [[cfgs[(r + j) % len(cfgs)] for j in range(n)] for r in range(len(cfgs))]
+            rows = [(cfg_row, [0] * n) for cfg_row in cfg_rows]
+            for con_row in itertools.product((0, 1), repeat=n):
+                if any(con_row):
+                    rows += [(c, list(con_row)) for c in ([rotation, [cfgs[0]] * n] if tier == "thorough" else [rotation])]
+            for cfg_row, con_row in rows:
+                hi = len(plans)
+                t = HIST_STAMPS[hi % len(HIST_STAMPS)]
+                sessions = []
+                for j in range(n):
+                    offers = []
+                    for _ in range((2, 1, 3, 0)[(hi + j) % 4] if j else 2):
+                        fr, (rssi, err, comment) = kinds[kctr % len(kinds)]
+                        kctr += 1
+                        t += td(microseconds=rnd.choice((0, 1, 9, 999, 123456, 999999, 60_000_000)))
+                        offers.append({"dtm": t, "rssi": rssi, "frame": fr, "err": err, "comment": comment})
+                    sessions.append({"file": files[j], "logcfg": cfg_row[j], "console": con_row[j], "offers": offers})
+                plans.append({"name": "history#%d:%s" % (hi, ",".join(
+                    (f or "-") + ("/" + c if f and c != "plain" else "") + ("+console" if k else "")
+                    for f, c, k in zip(files, cfg_row, con_row))), "sessions": sessions})
+    return plans
+
+
+def plan_of_model_history(hist: Any) -> dict:
+    """A history out of TLC (MC_PktLog: sessions [file, console, ps]) as a plan for log_histories."""
+    return {"name": "model:" + ",".join((h["file"] or "-") + ("+console" if h["console"] else "") for h in hist),
+            "sessions": [{"file": h["file"], "logcfg": "plain", "console": h["console"],
+                          "offers": [{"dtm": dt.fromisoformat(p["dtm"]), "rssi": p["rssi"], "frame": p["frame"], "err": p["err"],
+                                      "comment": p["comment"]} for p in h["ps"]]} for h in hist]}
+
+
+def _run_history(sessions: list[dict], tmp: str, via: str = "port") -> dict:
+    """One history in this process -> item for PktLogTrace (JudgeHist).  Only the library configures the logger
+    between the sessions; the harness resets it before (= a fresh process) and after the files were read."""
+    _detach()
+    paths = {f: f"{tmp}/{f}.log" for f in HIST_FILES if f}
+    try:
+        t_start = dt.now() - td(seconds=1)
+        hist = []
+        for s in sessions:
+            set_pkt_logging(_packet.PKT_LOGGER, cc_console=bool(s["console"]), file_name=paths.get(s["file"]), **LOG_CFGS[s["logcfg"]])
+            hist.append({"file": s["file"], "console": int(s["console"]), "written": _offer(s["offers"], via)})
+        names = [f for f in paths if any(s["file"] == f for s in sessions)]
+        lines = {f: _read_lines(paths[f]) for f in names}      # every handler flushes per record
+        _detach()
+        files = []
+        for f in names:
+            loop = asyncio.new_event_loop()
+            try:
+                asyncio.set_event_loop(loop)
+                replayed, lost = loop.run_until_complete(_replay(paths[f], f"{tmp}/regen.log"))
+            finally:
+                loop.close()
+                asyncio.set_event_loop(None)
+            if lost is not None:
+                raise RuntimeError(f"FileTransport ended with {lost!r}")
+            files.append({"name": f, "lines": lines[f], "replayed": replayed, "regen": _read_lines(f"{tmp}/regen.log")})
+            os.unlink(f"{tmp}/regen.log")
+        return {"hist": hist, "files": files, "window": [t3(t_start), t3(dt.now() + td(seconds=1))]}
+    finally:
+        _detach()
+        for fn in glob.glob(f"{tmp}/*"):
+            os.unlink(fn)
+
+
+def log_histories(plans: list[dict]) -> list[dict]:
+    """Run the histories in a forked child: PKT_LOGGER (and, with cc_console, stdout/stderr) is process-global
+    state, and what a history leaves behind there must not reach the other stages of the check."""
+    import json
+    import sys
+    import traceback
+
+    tmp = tempfile.mkdtemp(prefix="c02hist_")
+    out = f"{tmp}/items.json"
+    try:
+        sys.stdout.flush()
+        sys.stderr.flush()
+        pid = os.fork()
+        if pid == 0:
+            rc = 1
+            try:
+                null = open(os.devnull, "w")          # the console handlers bind sys.stderr / sys.stdout when created
+                sys.stdout = sys.stderr = null
+                os.mkdir(f"{tmp}/w")
+                res: Any = [_run_history(p["sessions"], f"{tmp}/w") for p in plans]
+                rc = 0
+            except BaseException:  # noqa: BLE001
+                res = {"error": traceback.format_exc()}
+            try:
+                with open(out, "w") as fh:
+                    json.dump(res, fh)
+            finally:
+                os._exit(rc)
+        _, status = os.waitpid(pid, 0)
+        if not os.path.exists(out):
+            raise RuntimeError(f"log_histories: the child left no result (wait status {status})")
+        with open(out) as fh:
+            res = json.load(fh)
+        if isinstance(res, dict) or status != 0:
+            raise RuntimeError(f"log_histories: the child failed (wait status {status}):\n{res.get('error') if isinstance(res, dict) else ''}")
+        return res
+    finally:
+        import shutil
+
+        shutil.rmtree(tmp, ignore_errors=True)
